@@ -76,6 +76,7 @@ func TestScrapeModel(t *testing.T) {
 			"non-trivial = some instrument name contains 'total' or a unit word, or attribute keys collide after sanitisation under the legacy scheme; distinct = distinct case encodings",
 		Quick: 4000, Thorough: 40000,
 		Gen: genCase(false), Run: runSeq,
+		Known: map[string]func(Case, vk.Violation) bool{"exp_histogram_scale_above_8_dropped": knownScaleAbove8},
 	})
 }
 
@@ -86,6 +87,7 @@ func TestConcurrentScrapes(t *testing.T) {
 			"non-trivial = every case (>= 2 concurrent scrapes); distinct = distinct case encodings",
 		Quick: 1200, Thorough: 12000,
 		Gen: genCase(true), Run: runConc,
+		Known:  map[string]func(Case, vk.Violation) bool{"exp_histogram_scale_above_8_dropped": knownScaleAbove8},
 		Repeat: 20,
 	})
 }
